@@ -90,7 +90,7 @@ func drawE2E(t *rapid.T) e2eScript {
 		case 1:
 			s.cmds = append(s.cmds, bb("ping"))
 		default:
-			s.cmds = append(s.cmds, bb("rpush", "list:"+rapid.StringMatching(`[a-c]`).Draw(t, "k"), rapid.StringMatching(`[a-z0-9]{1,8}`).Draw(t, "v")))
+			s.cmds = append(s.cmds, bb("rpush", "list:"+rapid.StringMatching(`[a-c]`).Draw(t, "k"), rapid.StringMatching(`[a-z0-9]{0,8}`).Draw(t, "v")))
 		}
 		g := time.Duration(rapid.SampledFrom([]int{0, 0, 150, 600, 1200}).Draw(t, "gapms")) * time.Millisecond
 		s.gaps = append(s.gaps, g)
@@ -418,6 +418,23 @@ func runE2E(s e2eScript, id int, loader bool) (sig, msg string) {
 			}
 		}
 	}
+	// once the full phase is over the tool acknowledges its position every second, also when the run started with
+	// +CONTINUE and there was no full phase at all
+	if s.start > 0 || len(data) > 0 {
+		acked := false
+		for dl := time.Now().Add(3500 * time.Millisecond); !acked && time.Now().Before(dl); time.Sleep(50 * time.Millisecond) {
+			for _, c := range src.ConnList() {
+				for _, r := range c.Commands() {
+					if len(r.Argv) == 3 && strings.EqualFold(r.Argv[0], "replconf") && strings.EqualFold(r.Argv[1], "ack") && r.Argv[2] != "0" {
+						acked = true
+					}
+				}
+			}
+		}
+		if !acked {
+			return "e2e:ack-missing", fmt.Sprintf("the incremental phase has been running for seconds (all %d data commands applied), yet no REPLCONF ACK with a non-zero offset reached the source", len(want))
+		}
+	}
 	if loader && len(want) > 0 {
 		// writer/reader agreement: the loader must read back the run id the sender ran under and the last stored offset
 		var lastOff int64 = -1
@@ -483,6 +500,10 @@ func e2eBatch(t *rapid.T, prop string) {
 	scripts := make([]e2eScript, k)
 	for i := range scripts {
 		scripts[i] = drawE2E(t)
+		if prop == "C08" {
+			// every batch holds every start mode (a batch has at least four runs)
+			scripts[i].mode = []string{"fresh", "resume-continue", "resume-fullresync", "fresh"}[i%4]
+		}
 		if prop == "C14" {
 			// only resumed runs, half of them continued streams that do not begin with a SELECT
 			if scripts[i].mode == "fresh" {
